@@ -384,6 +384,10 @@ def run(ctx):
     ctx.rule("R8", "what one collection drains is merged unchanged into the hot shard (shared with C03.R1-R3) and a local batch is handed over as claimed (C03.R2): later collections and "
                    "local histograms report the same counts and sum as direct observations")
     ctx.run_rule("R8", lambda c: C06._as(c, "R8", lambda s: hist_conc.rule_C03(s, f)))
+    # "a sample count equal to the number of observations" also for histograms fed by local ones: a local batch is handed over once (clone starts cleared, flush clears)
+    from . import C12
+    ctx.rule("R9", "a local histogram hands each observation over exactly once (shared with C12.L5): flush clears, a clone starts cleared, Drop flushes")
+    ctx.run_rule("R9", lambda c: C06._as(c, "R9", lambda s: C12.rule_local_histogram(s, f, "L5")))
     if ctx.tier == "thorough":
         g = ctx.facts("plain")
         ctx.run_rule("R1@plain", lambda c: rule_R1_R2(c, g))
